@@ -30,6 +30,32 @@ pub fn gen_case(ch: &mut Chooser) -> Case {
     // a third of the documents stay purely static
     if ch.chance(2, 3) {
         add_dynamic(ch, &mut root, 1, 3, &mut dyns);
+    } else if ch.chance(1, 2) {
+        // the only dynamic code of the document is one member of a grouped (gadget) value, next to
+        // constant members or alone: reject mode must refuse it like any other dynamic binding
+        // (seeded change C14d: such properties skipped by the reject-mode scan)
+        let srcs = sources_in(&root);
+        let paths: Vec<Vec<usize>> = root.flat().into_iter()
+            .filter(|(_, o)| kind_of(&o.class) == Kind::Widget && !o.binds.iter().any(|b| b.path == "font" || b.path.starts_with("font.") || b.path == "sizePolicy" || b.path.starts_with("sizePolicy.")))
+            .map(|(p, _)| p).collect();
+        if !srcs.is_empty() && !paths.is_empty() {
+            let p = ch.pick(&paths).clone();
+            let font = ch.chance(2, 3);
+            let (member, ty) = if font { *ch.pick(&[("font.pointSize", "int"), ("font.bold", "bool"), ("font.italic", "bool")]) } else { *ch.pick(&[("sizePolicy.horizontalStretch", "int"), ("sizePolicy.verticalStretch", "int")]) };
+            if let Some(e) = gen_dyn_expr(ch, &srcs, ty) {
+                let o = root.at_mut(&p);
+                if ch.chance(2, 3) {
+                    if font {
+                        o.binds.push(Bind::new(if member == "font.bold" { "font.italic" } else { "font.bold" }, "true"));
+                    } else {
+                        o.binds.push(Bind::new("sizePolicy.horizontalPolicy", "QSizePolicy.Expanding"));
+                        o.binds.push(Bind::new("sizePolicy.verticalPolicy", "QSizePolicy.Fixed"));
+                    }
+                }
+                o.binds.push(Bind::new(member, e));
+                ch.label("lone-dynamic-gadget-member");
+            }
+        }
     }
     let mut fault = None;
     if ch.chance(1, 3) {
